@@ -42,7 +42,8 @@ def int_spellings(ty):
         out += [("negative-literal", "-10", -10, []), ("negative-literal-spaced", "- 10", -10, []), ("negated-const", "-K", -k, c), ("negated-paren", "-(K)", -k, c),
                 ("paren-negated", "(-K)", -k, c), ("negated-minus", "-K - 1", -11, c), ("negative-literal-plus-const", "-10 + K", 0, c), ("double-negation", "--K", k, c),
                 ("negated-fn", "-bound_fn()", -12, [f"const fn bound_fn() -> {ty} {{ 12 }}"]), ("not", "!K", ~k, c), ("negative-literal-minus-literal", "-3 - 4", -7, []),
-                ("abs-call", "(-20 as " + ty + ").abs()", 20, [])]
+                ("abs-call", "(-20 as " + ty + ").abs()", 20, []), ("double-negated-literal-paren", "-(-5)", 5, []), ("double-negated-literal-spaced", "- -5", 5, []),
+                ("triple-negated-literal", "-(-(-5))", -5, []), ("negated-paren-literal", "-(5)", -5, []), ("paren-negative-literal", "(-5)", -5, []), ("paren-literal", "(5)", 5, [])]
     else:
         out += [("not", "!K", hi - k, c)]
     return out
@@ -240,6 +241,12 @@ def build(tier, seed):
             d.block_order = tuple(perm) + ("const_fn", "new_unchecked")
             d.trailing_commas = tc
     rep = [
+        ("repeated-validate-nonadjacent", "validate(greater = 5), sanitize(with = |x| x), validate(less = 3)", [("greater", 5), ("less", 3)]),
+        ("repeated-validate-nonadjacent", "validate(greater = 5), sanitize(with = |x| x), derive(Debug), validate(less = 3)", [("greater", 5), ("less", 3)]),
+        ("repeated-validate-nonadjacent", "validate(greater = 5), default = 7, validate(less = 3), derive(Debug, Default)", [("greater", 5), ("less", 3)]),
+        ("repeated-validate-nonadjacent", "derive(Debug), validate(greater = 5), const_fn, validate(less = 3)", [("greater", 5), ("less", 3)]),
+        ("repeated-sanitize-nonadjacent", "sanitize(with = |x| x + 1), derive(Debug), sanitize(with = |x| x * 2)", None),
+        ("repeated-sanitize-nonadjacent", "sanitize(with = |x| x + 1), validate(less = 1000), sanitize(with = |x| x * 2), derive(Debug)", "san+less1000"),
         ("repeated-validate", "validate(greater = 5), validate(less = 3)", [("greater", 5), ("less", 3)]),
         ("repeated-validate-same-kind", "validate(greater = 5), validate(greater = 1)", [("greater", 5), ("greater", 1)]),
         ("repeated-validate-split", "validate(greater = 5), derive(Debug), validate(less = 30)", [("greater", 5), ("less", 30)]),
@@ -250,10 +257,12 @@ def build(tier, seed):
     for cls, attrs, rules in rep:
         d = new(inner_int("i32"), "layout:" + cls)
         d.attr_override = attrs
-        if rules is None:
+        if rules is None or rules == "san+less1000":
             # both sanitizers written: the honest reading applies both, in order
             add_with_sanitizer(d, "(x + 1) * 2", "path")
             d.sans[-1].arg = "UNUSED"
+            if rules == "san+less1000":
+                d.vals = [Vld("less", "1000", 1000)]
         elif rules:
             d.vals = [Vld(k, str(v), v) for k, v in rules]
         d.derives = ["Debug"] if "Debug" in attrs else []
